@@ -259,10 +259,11 @@ def handle (j : Json) : R Json := do
   let fix13 := (j.getObjValAs? Bool "fix13").toOption.getD true
   let fixResub := (j.getObjValAs? Bool "fixResub").toOption.getD true
   let fixRaise := (j.getObjValAs? Bool "fixRaise").toOption.getD true
+  let fixHand := (j.getObjValAs? Bool "fixHand").toOption.getD true
   let ops ← getArr j "ops"
   let cbs ← cbOf ops
   let c : Cfg := { imm := fun x => imm.contains x, nul := fun x => nul.contains x, fix12 := fix12, fix13 := fix13,
-                   fixResub := fixResub, fixRaise := fixRaise,
+                   fixResub := fixResub, fixRaise := fixRaise, fixHand := fixHand,
                    cb := fun x => match cbs.reverse.find? (fun e => e.1 = x) with
                                   | some e => e.2
                                   | none => Callback.none }
